@@ -1,5 +1,6 @@
 // C15 — STUN: binding requests get a success response reflecting the observed address.
 
+use crate::vf::shadow::{shadow_opt, with_shadow, Shadow};
 use proptest::collection::vec;
 use proptest::prelude::*;
 use serde::{Deserialize, Serialize};
@@ -38,9 +39,19 @@ pub struct Case {
     /// IP header fields the responder is not documented to look at
     #[serde(default)]
     pub tweak: Option<IpTweak>,
+    /// sibling traffic sent before every frame of the case (vf/shadow.rs)
+    #[serde(default)]
+    pub shadow: Option<Shadow>,
 }
 
 pub fn case_strategy() -> impl Strategy<Value = Case> {
+    (case_strategy0(), shadow_opt()).prop_map(|(mut c, sh)| {
+        c.shadow = sh;
+        c
+    })
+}
+
+fn case_strategy0() -> impl Strategy<Value = Case> {
     let other_type = prop_oneof![
         3 => prop::sample::select(vec![0x0011u16, 0x0101, 0x0111]),
         3 => prop::sample::select(vec![0x0002u16, 0x0003, 0x0004, 0x0006, 0x0008, 0x0009, 0x000b, 0x0021, 0x0201, 0x0fff]),
@@ -52,7 +63,7 @@ pub fn case_strategy() -> impl Strategy<Value = Case> {
         3 => (stun_req(), other_type).prop_map(|(base, mtype)| Msg::Other { base, mtype }),
         3 => hostile_stun().prop_map(Msg::Hostile),
     ];
-    (scenario_levels(Fam::Any), prop_oneof![4 => port(), 1 => Just(65535u16)], prop_oneof![4 => port(), 1 => Just(65535u16)], msg, prop::option::weighted(0.25, crate::vf::props::c03::ip_tweak())).prop_map(|(scn, sport, dport, msg, tweak)| Case { scn, sport, dport, msg, tweak })
+    (scenario_levels(Fam::Any), prop_oneof![4 => port(), 1 => Just(65535u16)], prop_oneof![4 => port(), 1 => Just(65535u16)], msg, prop::option::weighted(0.25, crate::vf::props::c03::ip_tweak())).prop_map(|(scn, sport, dport, msg, tweak)| Case { shadow: None, scn, sport, dport, msg, tweak })
 }
 
 /// reply invariants of a binding success response for a request from (src ip, sport)
@@ -71,6 +82,10 @@ fn response_ok(a: &[u8], req_tid: &[u8; 16], net: &Net, sport: u16) -> Check {
 }
 
 pub fn check(c: &Case, st: &mut Stats) -> Check {
+    with_shadow(&c.shadow, st, |st| check0(c, st))
+}
+
+fn check0(c: &Case, st: &mut Stats) -> Check {
     Sut::reset();
     st.eval();
     let _ambient = AmbientGuard::set(&c.tweak);
